@@ -354,6 +354,14 @@ func universe() []Val {
 		return struct{ id [5]byte }{a}
 	}))
 	add(sv("array of a named byte type", true, func(v int) interface{} { return [3]namedU8{namedU8(secPlain[v][0]), namedU8(secPlain[v][1]), 'z'} }))
+	// --- maps inside maps (the key sorter runs recursively; inner maps smaller, equal and larger than the outer)
+	add(sv("maps holding maps", true, func(v int) interface{} {
+		return []interface{}{
+			map[string]map[string]int{"a": {"x": secInt[v], "y": 2}, "b": {"z": 3}},
+			map[string]interface{}{"a": map[string]int{"p": 1, "q": secInt[v], "r": 3}, "b": []interface{}{map[int]string{1: secPlain[v], 2: "t"}}, "c": map[string]int{}},
+			map[int]map[int]map[int]string{1: {1: {1: secPlain[v], 2: "b"}, 2: {3: "c"}}, 2: {4: {5: "d", 6: "e", 7: "f"}}},
+		}
+	}))
 	// --- several classifications at once (see dblSafeT)
 	add(sv("registered+SafeValue elements before a secret", true, func(v int) interface{} {
 		return []interface{}{dblSafeT(7), secStr[v], []dblSafeT{1, 2}, secInt[v], map[dblSafeT]string{3: secPlain[v]}, struct {
@@ -385,6 +393,14 @@ func universe() []Val {
 		var a interface{} = &structInner{secInt[v], 2}
 		return reflect.ValueOf(&a).Elem()
 	}))
+	add(Val{Name: "Safe(nil)", Mk: func(v int) interface{} { return redact.Safe(nil) }, Own: true, WrapOnly: true, Passive: true})
+	add(Val{Name: "Unsafe(nil)", Mk: func(v int) interface{} { return redact.Unsafe(nil) }, Own: true, WrapOnly: true, Passive: true})
+	add(Val{Name: "wrappers nested in containers (struct under Safe, wrapper behind an unexported field, SafeFormatter under Unsafe)", Mk: func(v int) interface{} {
+		return []interface{}{redact.Safe(structT{1, "x", nil}), struct{ a interface{} }{redact.Safe(1)}, redact.Unsafe(structInner{1, 2}), struct{ u interface{} }{redact.Unsafe("w")}, redact.Safe(safeFmtT{"k", "v"})}
+	}, Own: true, WrapOnly: false, Passive: true})
+	add(Val{Name: "wrappers nested in interface slots (struct under Safe, struct under Unsafe, Stringer under Safe)", Mk: func(v int) interface{} {
+		return []interface{}{redact.Safe(structT{1, "x", nil}), redact.Unsafe(structInner{1, 2}), redact.Safe(strT{"s"}), map[string]interface{}{"k": redact.Safe(structInner{3, 4})}}
+	}, Own: true, WrapOnly: true, Passive: false, Fmt: true})
 	// safe text ending in ill-formed UTF-8 without any marker lead byte (the final '?' guard is the only escaping it needs)
 	add(Val{Name: "Safe(string ending in a dangling byte)", Mk: func(v int) interface{} { return redact.Safe("id=\xff") }, Own: true, WrapOnly: true, Passive: true})
 	add(Val{Name: "SafeValue string ending in a dangling lead byte", Mk: func(v int) interface{} { return safeT("caf\xc3") }, Own: true, WrapOnly: true, Passive: true})
